@@ -182,6 +182,16 @@ DispatchCases == {<<f, v>> : f \in OptionFamilies, v \in {"__unknown__", "__miss
                  UNION {{<<f, v>> : v \in Values(f)} : f \in OptionFamilies}
 DispatchAccepts(f, v, sc) == v \in Values(f) /\ NeedsScale(Dispatch[f][v]) \in {"any", sc}
 
+\* PatchKnownBad: (country, option pattern) pairs the maintainers rewrite to `shutoff: immediate` before dispatching
+\* (alter_scenario_if_known_to_fail). The rewrite happens on a copy: the caller's dictionary keeps the requested value, and the
+\* next country dispatched with the same dictionary gets the requested shut-off.
+KnownBad == {
+  [cc |-> "SLV", opts |-> [cull |-> "do_eat_culled", scenario |-> "all_resilient_foods", shutoff |-> "continued"]],
+  [cc |-> "SLV", opts |-> [cull |-> "do_eat_culled", scenario |-> "seaweed", shutoff |-> "short_delayed_shutoff"]],
+  [cc |-> "ALB", opts |-> [cull |-> "do_eat_culled", scenario |-> "seaweed", shutoff |-> "long_delayed_shutoff"]],
+  [cc |-> "ECU", opts |-> [cull |-> "do_eat_culled", scenario |-> "greenhouse", shutoff |-> "long_delayed_shutoff", crop_disruption |-> "zero",
+                           meat_strategy |-> "feed_only_ruminants", ratio_stocks_untouched |-> "zero"]] }
+
 \* ------------------------------------------------------------------ machine
 VARIABLES scale,     \* "unset" | "global" | "country"
           flags,     \* families whose setter has been applied
@@ -215,7 +225,7 @@ TablesConsistent ==
   /\ \A f \in DOMAIN Doc : \A v \in DOMAIN Doc[f] : v \in Values(f)
 ASSUME TablesConsistent
 ASSUME Emit => PrintT(ToJson([k |-> "Tables", setters |-> SetterTab, owns |-> Owns, dispatch |-> Dispatch, doc |-> Doc,
-                              overrides |-> [k \in OverrideKeys |-> OverrideTarget(k)], species |-> Species,
+                              overrides |-> [k \in OverrideKeys |-> OverrideTarget(k)], species |-> Species, knownbad |-> KnownBad,
                               cases |-> {[f |-> c[1], v |-> c[2], global |-> DispatchAccepts(c[1], c[2], "global"),
                                           country |-> DispatchAccepts(c[1], c[2], "country")] : c \in DispatchCases}]))
 =============================================================================
